@@ -234,12 +234,16 @@ Qed.
 (* sizes: a reply body never exceeds 1023 bytes *)
 Definition hstate_ok (s : hstate) : Prop := (length (s_fname s) <= 255)%nat.
 
+Lemma bcd_convert_length l : length (bcd_convert l) = (2 * length l)%nat.
+Proof.
+  unfold bcd_convert. induction l as [|x l IH]; cbn [flat_map length app]. reflexivity.
+  rewrite IH. lia.
+Qed.
+
 Lemma phone_of_length m : decoded_header m -> (length (phone_of m) <= 20)%nat.
 Proof.
   intros (_ & _ & _ & _ & L). unfold phone_of, bcd2dec.
-  assert (C : length (bcd_convert (m_bcd m)) = (2 * length (m_bcd m))%nat).
-  { unfold bcd_convert. induction (m_bcd m) as [|x l IH]; cbn [flat_map length app]. reflexivity.
-    rewrite IH. lia. }
+  pose proof (bcd_convert_length (m_bcd m)) as C.
   assert (S0 : forall l, (length (strip0 l) <= length l)%nat).
   { induction l as [|c t IH]; cbn [strip0 length]. lia. destruct (c =? 48); cbn [length]; lia. }
   destruct (strip0 (bcd_convert (m_bcd m))) eqn:E.
